@@ -222,20 +222,25 @@ BATTERY = {"roundtrip": t_roundtrip, "prints": t_prints, "extra_param": t_extra_
            "inf_spelling": t_inf_spelling, "annotations": t_annotations, "keys_iter": t_keys_iter, "positional_to_keyword": t_positional_to_keyword}
 
 names = sys.argv[1:] or list(BATTERY)
-for nm in names:
+
+
+def run_one(nm):
     tmp = tempfile.mkdtemp(prefix="benign_")
     try:
         os.makedirs(os.path.join(tmp, "EoN"))
         trees = BATTERY[nm](load("/repo"))
         for m, t in trees.items():
             open(os.path.join(tmp, "EoN", m + ".py"), "w").write(ast.unparse(t))
-        bad = []
-        for p in sorted(P.PROPS):
-            r = subprocess.run(["/venv/bin/python", "-W", "ignore", "-m", "sa.run", p, "--repo", tmp], cwd="/verif", capture_output=True, text=True)
-            if r.returncode != 0:
-                rules = sorted({l.split("[")[1].split("]")[0] for l in r.stdout.splitlines() if l.startswith("FINDING") and "[" in l})
-                last = [l for l in r.stdout.splitlines() if l.startswith("ANALYSIS")]
-                bad.append("%s(rc=%d %s %s)" % (p, r.returncode, ",".join(rules), last[0][:100] if last else ""))
-        print("%-20s %s" % (nm, "silent on all %d checks" % len(P.PROPS) if not bad else "ALARMS: " + " ".join(bad)), flush=True)
+        r = subprocess.run(["/venv/bin/python", "-W", "ignore", "-m", "sa.multi", "--repo", tmp], cwd="/verif", capture_output=True, text=True)
+        bad = [l for l in r.stdout.splitlines() if " rc=" in l]
+        if r.returncode != 0 and not bad:
+            bad = ["HARNESS-ERROR " + r.stderr[-300:]]
+        return "%-22s %s" % (nm, "silent on all %d checks" % len(P.PROPS) if not bad else "ALARMS: " + " | ".join(bad))
     finally:
         shutil.rmtree(tmp, ignore_errors=True)
+
+
+from concurrent.futures import ThreadPoolExecutor
+with ThreadPoolExecutor(4) as ex:
+    for line in ex.map(run_one, names):
+        print(line, flush=True)
